@@ -137,9 +137,12 @@ def judge(ctx, idx, case):
     hub = ctx.hub
     hub.context = {"check": ID, "idx": idx}
     r = random.Random(case["seed"])
-    st = interp.run(case["ops"])
+    st = common.build(case["ops"], observed=True)   # built while accessors / printing / ==, hash / look-ups observe it
     doc = st.doc
-    twin = interp.run(case["ops"]).doc          # same calls, same process
+    ctx.count("observations_during_construction", getattr(st, "observations", 0))
+    # the twin is built by exactly the same calls (including the same read-only observations: an accessor such as
+    # record.label touches the attribute table's key order, which PROV-N prints, so "the same calls" has to include them)
+    twin = common.build(case["ops"], observed=True).doc
     problems = []
     ev0 = hub.counts["PURE.evaluations"]
     for call in case["calls"]:
